@@ -394,6 +394,7 @@ struct Walker<'s> {
     loops: usize,
     closures: usize,
     ifs: usize,
+    matches: usize,
     folds: usize,
     block_stmts: HashMap<String, usize>,
     env: Vec<HashMap<String, (K, K)>>,
@@ -1038,13 +1039,18 @@ impl<'s> Walker<'s> {
             }
             Match(m) => {
                 self.walk_expr(&m.expr);
-                for arm in m.arms.iter() {
+                self.matches += 1;
+                let mname = format!("M{}", self.matches);
+                for (j, arm) in m.arms.iter().enumerate() {
                     self.env.push(HashMap::new());
                     self.bind_pat(&arm.pat, (K::Other, K::Other));
                     if let Some((_, g)) = &arm.guard {
                         self.walk_expr(g);
                     }
-                    self.walk_expr(&arm.body);
+                    match &*arm.body {
+                        Block(b) => self.walk_block(&b.block, &format!("{}a{}", mname, j)),
+                        other => self.walk_expr(other),
+                    }
                     self.env.pop();
                 }
             }
@@ -1143,7 +1149,10 @@ impl<'s> Walker<'s> {
                 {
                     let r = self.src.range(a.span());
                     let txt = self.src.text[r.0..r.1].to_string();
-                    self.replace(r, &format!("|e_ctor| {}(e_ctor)", txt), "R4");
+                    // the enum type is the path without its last segment; the eta-expanded constructor carries its own definition as contract
+                    let ety: Vec<String> = p.path.segments.iter().take(p.path.segments.len() - 1).map(|s| s.ident.to_string()).collect();
+                    let ety = ety.join("::");
+                    self.replace(r, &format!("|e_ctor| -> (o_ctor: {}) ensures o_ctor == {}(e_ctor) {{ {}(e_ctor) }}", ety, txt, txt), "R4");
                     return;
                 }
             }
@@ -1502,6 +1511,7 @@ fn extract_fn(src: &Src, file: &syn::File, selector: &str, ov: &FnOverlay, map: 
         loops: 0,
         closures: 0,
         ifs: 0,
+        matches: 0,
         folds: 0,
         block_stmts: HashMap::new(),
         env: vec![HashMap::new()],
@@ -1541,7 +1551,7 @@ fn extract_fn(src: &Src, file: &syn::File, selector: &str, ov: &FnOverlay, map: 
                 }
                 first = false;
                 // parameter type with R3 applied
-                let mut tw = Walker { src, ov, edits: Vec::new(), depth: 0, loops: 0, closures: 0, ifs: 0, folds: 0, block_stmts: HashMap::new(), env: vec![HashMap::new()], used: HashSet::new(), cut_defs: vec![], cut_info: vec![], r2: true };
+                let mut tw = Walker { src, ov, edits: Vec::new(), depth: 0, loops: 0, closures: 0, ifs: 0, matches: 0, folds: 0, block_stmts: HashMap::new(), env: vec![HashMap::new()], used: HashSet::new(), cut_defs: vec![], cut_info: vec![], r2: true };
                 tw.walk_type(&pt.ty);
                 let (ts, te) = src.range(pt.ty.span());
                 let (tytxt, _) = apply(src, ts, te, &mut tw.edits);
@@ -1556,7 +1566,7 @@ fn extract_fn(src: &Src, file: &syn::File, selector: &str, ov: &FnOverlay, map: 
     }
     head.push(')');
     if let syn::ReturnType::Type(_, ty) = &sig.output {
-        let mut tw = Walker { src, ov, edits: Vec::new(), depth: 0, loops: 0, closures: 0, ifs: 0, folds: 0, block_stmts: HashMap::new(), env: vec![HashMap::new()], used: HashSet::new(), cut_defs: vec![], cut_info: vec![], r2: true };
+        let mut tw = Walker { src, ov, edits: Vec::new(), depth: 0, loops: 0, closures: 0, ifs: 0, matches: 0, folds: 0, block_stmts: HashMap::new(), env: vec![HashMap::new()], used: HashSet::new(), cut_defs: vec![], cut_info: vec![], r2: true };
         tw.walk_type(ty);
         let (ts, te) = src.range(ty.span());
         let (tytxt, _) = apply(src, ts, te, &mut tw.edits);
@@ -1577,7 +1587,7 @@ fn extract_fn(src: &Src, file: &syn::File, selector: &str, ov: &FnOverlay, map: 
         let mut sr: Vec<(&'static str, usize)> = Vec::new();
         if let Some(im) = sel.imp {
             let g = generics_text(src, &im.generics, &mut sr);
-            let mut tw = Walker { src, ov, edits: Vec::new(), depth: 0, loops: 0, closures: 0, ifs: 0, folds: 0, block_stmts: HashMap::new(), env: vec![HashMap::new()], used: HashSet::new(), cut_defs: vec![], cut_info: vec![], r2: true };
+            let mut tw = Walker { src, ov, edits: Vec::new(), depth: 0, loops: 0, closures: 0, ifs: 0, matches: 0, folds: 0, block_stmts: HashMap::new(), env: vec![HashMap::new()], used: HashSet::new(), cut_defs: vec![], cut_info: vec![], r2: true };
             tw.walk_type(&im.self_ty);
             let (ts, te) = src.range(im.self_ty.span());
             let (selfty, _) = apply(src, ts, te, &mut tw.edits);
@@ -1683,7 +1693,7 @@ fn extract_fn(src: &Src, file: &syn::File, selector: &str, ov: &FnOverlay, map: 
     let mut pre_lines = 0usize;
     if let Some(im) = sel.imp {
         let g = generics_text(src, &im.generics, &mut sigrules);
-        let mut tw = Walker { src, ov, edits: Vec::new(), depth: 0, loops: 0, closures: 0, ifs: 0, folds: 0, block_stmts: HashMap::new(), env: vec![HashMap::new()], used: HashSet::new(), cut_defs: vec![], cut_info: vec![], r2: true };
+        let mut tw = Walker { src, ov, edits: Vec::new(), depth: 0, loops: 0, closures: 0, ifs: 0, matches: 0, folds: 0, block_stmts: HashMap::new(), env: vec![HashMap::new()], used: HashSet::new(), cut_defs: vec![], cut_info: vec![], r2: true };
         tw.walk_type(&im.self_ty);
         let (ts, te) = src.range(im.self_ty.span());
         let (selfty, _) = apply(src, ts, te, &mut tw.edits);
@@ -1774,7 +1784,7 @@ fn extract_struct(src: &Src, file: &syn::File, name: &str, opts: &HashMap<String
                 t.push_str(&format!("pub struct {}{} {{\n", s.ident, g));
                 let mut n_r3 = 0;
                 for f in s.fields.iter() {
-                    let mut tw = Walker { src, ov: &ov, edits: Vec::new(), depth: 0, loops: 0, closures: 0, ifs: 0, folds: 0, block_stmts: HashMap::new(), env: vec![HashMap::new()], used: HashSet::new(), cut_defs: vec![], cut_info: vec![], r2: true };
+                    let mut tw = Walker { src, ov: &ov, edits: Vec::new(), depth: 0, loops: 0, closures: 0, ifs: 0, matches: 0, folds: 0, block_stmts: HashMap::new(), env: vec![HashMap::new()], used: HashSet::new(), cut_defs: vec![], cut_info: vec![], r2: true };
                     tw.walk_type(&f.ty);
                     n_r3 += tw.edits.len();
                     let (ts, te) = src.range(f.ty.span());
@@ -1865,6 +1875,7 @@ fn main() {
     let mut map: Vec<serde_json::Value> = Vec::new();
     let mut includes: Vec<String> = Vec::new();
     let mut in_pre = true;
+    let mut emitted_structs: HashSet<String> = HashSet::new();
     for d in dirs.iter() {
         if in_pre && !matches!(d, Directive::Include(_)) {
             in_pre = false;
@@ -1891,6 +1902,9 @@ fn main() {
                 includes.push(p.clone());
             }
             Directive::Struct { file, name, opts } => {
+                if !emitted_structs.insert(format!("{}::{}", file, name)) {
+                    continue; // fragments share type definitions: each is emitted once per unit
+                }
                 file_of(&mut files, file);
                 let (s, f) = files.get(file).unwrap();
                 text.push_str(&format!("// ---- extracted from {} : {} ----\n", file, name));
